@@ -91,10 +91,23 @@ func TestVerif_C32(t *testing.T) {
 		srcStore.Del("setup", gatebe.FileKey{Type: backend.SnapshotFile, Name: orig.String()})
 		srcs[2].id = nid
 	}
+	// a fourth snapshot with the SAME tree as the first (an unchanged directory backed up again): copying it
+	// needs no new blob once the first one's data is on its way
+	{
+		tm := time.Date(2021, 7, 7, 7, 7, 30, 0, time.UTC)
+		tags := []string{"s0-again"}
+		tree := srcs[0].tree
+		sn := &data.Snapshot{Time: tm, Tree: &tree, Paths: []string{"/src"}, Hostname: "srchost", Tags: tags, Username: "verif"}
+		id, err := data.SaveSnapshot(ctx, srcRepo, sn)
+		if err != nil {
+			t.Fatal(err)
+		}
+		srcs = append(srcs, verifC32Src{id: id, tree: tree, content: srcs[0].content, time: tm, tags: tags})
+	}
 	srcState := srcStore.Snapshot()
-	byTree := map[restic.ID]verifC32Src{}
+	byTree := map[string]verifC32Src{}
 	for _, s := range srcs {
-		byTree[s.tree] = s
+		byTree[s.tree.String()+s.time.UTC().String()] = s
 	}
 
 	copyOnce := func(ctx context.Context, scratch string, dst backend.Backend) error {
@@ -165,7 +178,7 @@ func TestVerif_C32(t *testing.T) {
 		for _, e := range oracle.Check(ctx, repo, true).Errors {
 			probs = append(probs, "check: "+e)
 		}
-		seen := map[restic.ID]bool{}
+		seen := map[string]bool{}
 		var names []string
 		for k := range st {
 			if k.Type == backend.SnapshotFile {
@@ -180,7 +193,7 @@ func TestVerif_C32(t *testing.T) {
 				probs = append(probs, fmt.Sprintf("snapshot %v unreadable: %v", id.Str(), err))
 				continue
 			}
-			src, ok := byTree[*sn.Tree]
+			src, ok := byTree[sn.Tree.String()+sn.Time.UTC().String()]
 			if !ok {
 				probs = append(probs, fmt.Sprintf("snapshot %v has a tree that no source snapshot has", id.Str()))
 				continue
@@ -196,11 +209,11 @@ func TestVerif_C32(t *testing.T) {
 			if !sn.Time.Equal(src.time) || sn.Hostname != "srchost" || strings.Join(sn.Tags, ",") != strings.Join(src.tags, ",") {
 				probs = append(probs, fmt.Sprintf("snapshot %v metadata differs from its source (time %v host %q tags %v)", id.Str(), sn.Time, sn.Hostname, sn.Tags))
 			}
-			seen[*sn.Tree] = true
+			seen[sn.Tree.String()+sn.Time.UTC().String()] = true
 		}
 		if requireAll {
 			for _, s := range srcs {
-				if !seen[s.tree] {
+				if !seen[s.tree.String()+s.time.UTC().String()] {
 					probs = append(probs, fmt.Sprintf("snapshot: copy succeeded but source snapshot %v has no copy in the destination", s.id.Str()))
 				}
 			}
